@@ -145,6 +145,8 @@ struct Built {
     is_fst: bool,
     is_merged: bool,
     is_curated: bool,
+    /// an FstDictionary, or a merged dictionary over one: its fuzzy search consults the per-thread builder cache
+    uses_fst: bool,
     /// FstDictionary::new called directly on entries whose ids are not pairwise distinct: which spelling of an
     /// id survives differs from MutableDictionary::extend_words (sorted order vs insertion order; FC15b)
     id_collision: bool,
@@ -177,9 +179,123 @@ struct Cx {
     automaton_curated_max: u64,
     /// Vec::sort_by_key stability, observed on std itself with the keys of every suggestion case
     sort_stable_checked: u64,
+    /// the ONE long-lived thread every Dictionary query of the run is made on (FstDictionary keeps a thread-local
+    /// cache of automaton builders: the history of bounds asked on a thread is part of the input), with a watchdog
+    imp: ImplThread,
+    /// wall-clock budget of one implementation call; CPU budget (of the implementation thread) of all of them
+    call_budget: std::time::Duration,
+    cpu_budget_ns: u64,
+    impl_cpu_ns: u64,
+    impl_calls: u64,
+    slowest: (u64, String, Value),
+    /// source location of the last panic caught on the implementation thread
+    last_loc: String,
+    /// a call ran out of budget: the report is finished with what was found so far
+    aborted: bool,
+    /// the bounds asked of FstDictionary::fuzzy_match on the implementation thread so far: order of first use, and
+    /// the most recent ones (consecutive repetitions dropped) — part of every failing input (`warmup_bounds`), replayed
+    /// on a one-word FstDictionary before the scenario so that the per-thread builder cache is in the same state
+    bounds_first: Vec<u8>,
+    bounds_recent: std::collections::VecDeque<u8>,
+}
+
+/// Implementation calls run on one dedicated thread; the main thread waits with a timeout, so that a call that does
+/// not return becomes an oracle failure (class `fuzzy_diverges`, with the concrete input) instead of a hang.
+struct ImplThread {
+    tx: std::sync::mpsc::Sender<Box<dyn FnOnce() + Send>>,
+}
+fn spawn_impl_thread() -> ImplThread {
+    let (tx, rx) = std::sync::mpsc::channel::<Box<dyn FnOnce() + Send>>();
+    std::thread::Builder::new().name("impl".into()).stack_size(256 << 20).spawn(move || {
+        for job in rx {
+            job();
+        }
+    }).expect("cannot start the implementation thread");
+    ImplThread { tx }
+}
+/// CPU time this thread has spent on a core so far (Linux: first field of /proc/thread-self/schedstat, ns)
+fn thread_cpu_ns() -> u64 {
+    std::fs::read_to_string("/proc/thread-self/schedstat").ok().and_then(|s| s.split_whitespace().next().and_then(|x| x.parse().ok())).unwrap_or(0)
+}
+fn env_u64(name: &str, default: u64) -> u64 {
+    std::env::var(name).ok().and_then(|v| v.trim().parse().ok()).unwrap_or(default)
 }
 
 impl Cx {
+    /// run `f` (implementation calls only, owned captures) on the implementation thread, panics caught.
+    /// None = the watchdog fired (this call never returned) or the run was already aborted.
+    fn on_impl<T: Send + 'static>(&mut self, what: &str, fail_input: &Value, f: impl FnOnce() -> T + Send + 'static) -> Option<Result<T, String>> {
+        if self.aborted {
+            return None;
+        }
+        let (rtx, rrx) = std::sync::mpsc::channel();
+        let job = Box::new(move || {
+            let c0 = thread_cpu_ns();
+            let r = guarded(f);
+            let loc = last_panic_location();
+            let _ = rtx.send((r, loc, thread_cpu_ns().saturating_sub(c0)));
+        });
+        if self.imp.tx.send(job).is_err() {
+            self.aborted = true;
+            self.rep.fail("fuzzy_diverges", format!("the implementation thread is gone before {what}"), fail_input.clone());
+            return None;
+        }
+        match rrx.recv_timeout(self.call_budget) {
+            Ok((r, loc, cpu)) => {
+                self.last_loc = loc;
+                self.impl_cpu_ns += cpu;
+                self.impl_calls += 1;
+                if cpu > self.slowest.0 {
+                    self.slowest = (cpu, what.to_string(), fail_input.clone());
+                }
+                if self.impl_cpu_ns > self.cpu_budget_ns {
+                    self.aborted = true;
+                    if self.rep.failures.len() >= 2000 {
+                        self.rep.failures.pop();
+                    }
+                    let (c, w, inp) = self.slowest.clone();
+                    self.rep.fail("fuzzy_diverges", format!("the dictionary queries of this run used {:.0} s of CPU in {} calls — beyond the budget of {:.0} s (an unchanged tree needs a fraction of it): queries have become pathologically slow; the slowest single call, {w}, took {:.2} s; the run stops here", self.impl_cpu_ns as f64 / 1e9, self.impl_calls, self.cpu_budget_ns as f64 / 1e9, c as f64 / 1e9), inp);
+                }
+                Some(r)
+            }
+            Err(_) => {
+                self.aborted = true;
+                if self.rep.failures.len() >= 2000 {
+                    self.rep.failures.pop();
+                }
+                self.rep.fail("fuzzy_diverges", format!("{what} did not return within {} s (watchdog): the call diverges or has become pathologically slow; the run stops here", self.call_budget.as_secs()), fail_input.clone());
+                None
+            }
+        }
+    }
+    fn note_bound(&mut self, d: u8) {
+        if !self.bounds_first.contains(&d) {
+            self.bounds_first.push(d);
+        }
+        if self.bounds_recent.back() != Some(&d) {
+            self.bounds_recent.push_back(d);
+            if self.bounds_recent.len() > 48 {
+                self.bounds_recent.pop_front();
+            }
+        }
+    }
+    fn warmup_bounds(&self) -> Vec<u8> {
+        let mut v = self.bounds_first.clone();
+        v.extend(self.bounds_recent.iter().copied());
+        v
+    }
+    /// replay of a failing input: bring the per-thread builder cache into the recorded state
+    fn warm_up(&mut self, bounds: &[u8]) {
+        if bounds.is_empty() {
+            return;
+        }
+        let f: Arc<dyn Dictionary> = Arc::new(FstDictionary::new(vec![("warmup".chars().collect::<CharString>(), mk_meta(0))]));
+        for &d in bounds {
+            let (f, q) = (f.clone(), "warmup".chars().collect::<Vec<char>>());
+            let _ = self.on_impl(&format!("warm-up fuzzy_match(\"warmup\", {d}, 1)"), &json!({"kind": "warmup", "bounds": bounds}), move || f.fuzzy_match(&q, d, 1).len());
+            self.note_bound(d);
+        }
+    }
     fn tag(&mut self, m: &WordMetadata) -> usize {
         let key = serde_json::to_string(m).unwrap_or_else(|_| format!("{m:?}"));
         let n = self.meta_tags.len();
@@ -362,7 +478,9 @@ fn build(cx: &mut Cx, s: &Scenario) -> Option<Vec<Built>> {
                 let _ = words;
                 let words: Vec<Vec<char>> = dict.words_iter().map(|w| w.to_vec()).collect();
                 let word_set = words.iter().cloned().collect();
-                out.push(Built { def: def.clone(), gname, dict, words, word_set, is_fst: matches!(def.ty.as_str(), "F" | "FM" | "CF"), is_merged: def.ty == "X", is_curated: def.ty.starts_with('C'), id_collision: def.ty == "F" && !ids_distinct(&def.entries), merged: merged_handle,
+                out.push(Built { def: def.clone(), gname, dict, words, word_set, is_fst: matches!(def.ty.as_str(), "F" | "FM" | "CF"), is_merged: def.ty == "X", is_curated: def.ty.starts_with('C'),
+                    uses_fst: matches!(def.ty.as_str(), "F" | "FM" | "CF") || (def.ty == "X" && def.children.iter().any(|c| out.iter().any(|b| b.def.name == *c && b.uses_fst))),
+                    id_collision: def.ty == "F" && !ids_distinct(&def.entries), merged: merged_handle,
                     sorted_ref: if def.ty == "F" && !ids_distinct(&def.entries) {
                         let mut es = chars.clone();
                         es.sort_by(|a, b| a.0.cmp(&b.0));
@@ -393,10 +511,11 @@ struct Exact {
     from_id: Option<Vec<char>>,
 }
 
-fn ask_exact(cx: &mut Cx, b: &Built, q: &[char]) -> Result<(Exact, Vec<String>), String> {
+fn ask_exact(cx: &mut Cx, b: &Built, q: &[char], fail_input: &Value) -> Result<(Exact, Vec<String>), String> {
     let qs: String = q.iter().collect();
-    let r = guarded(|| {
-        let d = &b.dict;
+    let (d, q) = (b.dict.clone(), q.to_vec());
+    let r = cx.on_impl(&format!("the exact queries for {qs:?} on {} ({})", b.def.name, b.def.ty), fail_input, move || {
+        let q = &q[..];
         let mut str_diffs = vec![];
         let contains = d.contains_word(q);
         if d.contains_word_str(&qs) != contains {
@@ -413,7 +532,7 @@ fn ask_exact(cx: &mut Cx, b: &Built, q: &[char]) -> Result<(Exact, Vec<String>),
         let canon = d.get_correct_capitalization_of(q).map(|w| w.to_vec());
         let from_id = d.get_word_from_id(&WordId::from_word_chars(q)).map(|w| w.to_vec());
         (contains, exact, meta, canon, from_id, str_diffs)
-    })?;
+    }).unwrap_or_else(|| Err("aborted".into()))?;
     let meta = r.2.as_ref().map(|m| cx.tag(m));
     Ok((Exact { contains: r.0, exact: r.1, meta, canon: r.3, from_id: r.4 }, r.5))
 }
@@ -424,12 +543,23 @@ fn exact_line(e: &Exact) -> String {
 }
 
 fn run_scenario(cx: &mut Cx, s: &Scenario) {
+    if cx.aborted {
+        return;
+    }
     let Some(built) = build(cx, s) else { return };
+    // FstDictionary::fuzzy_match depends on which bounds were asked before on the same thread (its cache of automaton
+    // builders): in a `bound-history` scenario the whole query sequence is the input of a failure
+    let history = s.origin.contains("bound-history");
+    // the state of the builder cache when the scenario starts (a history scenario is replayed as a whole)
+    let warm0 = cx.warmup_bounds();
     let by_name: HashMap<String, usize> = built.iter().enumerate().map(|(i, b)| (b.def.name.clone(), i)).collect();
     if !s.malformed {
         structure_oracle(cx, s, &built, &by_name);
     }
     for query in &s.queries {
+        if cx.aborted {
+            return;
+        }
         cx.rep.eval();
         let q: Vec<char> = query.q.chars().collect();
         cx.declare(&q);
@@ -438,7 +568,11 @@ fn run_scenario(cx: &mut Cx, s: &Scenario) {
         let ql_chars = lower_chars(&qn);
         let ql_string = lower_string(&qn);
         cx.declare(&ql_string);
-        let fail_input = scenario_json(s, Some(query));
+        let mut fail_input = if history { scenario_json(s, None) } else { scenario_json(s, Some(query)) };
+        let warm = if history { warm0.clone() } else { cx.warmup_bounds() };
+        if built.iter().any(|b| b.uses_fst) && !warm.is_empty() {
+            fail_input["warmup_bounds"] = json!(warm);
+        }
         let targets: Vec<usize> = if query.on.is_empty() { (0..built.len()).collect() } else { query.on.iter().filter_map(|n| by_name.get(n).copied()).collect() };
         let mut nontriv = false;
 
@@ -446,7 +580,7 @@ fn run_scenario(cx: &mut Cx, s: &Scenario) {
         let mut answers: HashMap<String, Exact> = HashMap::new();
         for &i in &targets {
             let b = &built[i];
-            match ask_exact(cx, b, &q) {
+            match ask_exact(cx, b, &q, &fail_input) {
                 Ok((e, str_diffs)) => {
                     cx.rep.case(&format!("C {} | {}", b.gname, cps(&q)), &exact_line(&e));
                     for sd in str_diffs {
@@ -493,8 +627,8 @@ fn run_scenario(cx: &mut Cx, s: &Scenario) {
                         let mut class = "backends_disagree";
                         for (x, other) in [(ba, bb), (bb, ba)] {
                             if let (true, Some(rf), false) = (x.id_collision, x.sorted_ref.as_ref(), other.id_collision) {
-                                let probe = Built { def: x.def.clone(), gname: String::new(), dict: rf.clone(), words: vec![], word_set: HashSet::new(), is_fst: false, is_merged: false, is_curated: false, id_collision: false, merged: None, sorted_ref: None };
-                                if let Ok((want, _)) = ask_exact(cx, &probe, &q) {
+                                let probe = Built { def: x.def.clone(), gname: String::new(), dict: rf.clone(), words: vec![], word_set: HashSet::new(), is_fst: false, is_merged: false, is_curated: false, uses_fst: false, id_collision: false, merged: None, sorted_ref: None };
+                                if let Ok((want, _)) = ask_exact(cx, &probe, &q, &fail_input) {
                                     if want == answers[&x.def.name] {
                                         class = "fst_new_id_collision";
                                     }
@@ -540,12 +674,21 @@ fn run_scenario(cx: &mut Cx, s: &Scenario) {
                     continue;
                 }
                 let mut str_differs = false;
-                let res: Result<Vec<(Vec<char>, u8, WordMetadata)>, String> = guarded(|| {
-                    let r: Vec<FuzzyMatchResult> = b.dict.fuzzy_match(&q, query.d, query.k);
-                    let r2: Vec<FuzzyMatchResult> = b.dict.fuzzy_match_str(&query.q, query.d, query.k);
+                if b.uses_fst {
+                    cx.note_bound(query.d);
+                }
+                let (dict, qc, qstr, (qd, qk)) = (b.dict.clone(), q.clone(), query.q.clone(), (query.d, query.k));
+                let res = cx.on_impl(&format!("fuzzy_match({:?}, {}, {}) on {} ({}, {} words)", query.q, query.d, query.k, b.def.name, b.def.ty, b.words.len()), &fail_input, move || {
+                    let r: Vec<FuzzyMatchResult> = dict.fuzzy_match(&qc, qd, qk);
+                    let r2: Vec<FuzzyMatchResult> = dict.fuzzy_match_str(&qstr, qd, qk);
                     let conv = |r: &Vec<FuzzyMatchResult>| r.iter().map(|x| (x.word.to_vec(), x.edit_distance, x.metadata.clone())).collect::<Vec<_>>();
                     let (a, c) = (conv(&r), conv(&r2));
-                    str_differs = a != c;
+                    let differs = a != c;
+                    (a, differs)
+                });
+                let Some(res) = res else { return };
+                let res: Result<Vec<(Vec<char>, u8, WordMetadata)>, String> = res.map(|(a, differs)| {
+                    str_differs = differs;
                     a
                 });
                 if str_differs {
@@ -560,7 +703,7 @@ fn run_scenario(cx: &mut Cx, s: &Scenario) {
                         let pc = panic_class(&m);
                         cx.rep.case(&format!("{head} | P {pc}"), &format!("P {pc}"));
                         // (F19, fixed by 7a7de79: strings of >= 255 characters used to panic here)
-                        cx.rep.fail("fuzzy_panic", format!("fuzzy_match on {} ({}) panicked ({pc}) at {}: {m}", b.def.name, b.def.ty, last_panic_location()), fail_input.clone());
+                        cx.rep.fail("fuzzy_panic", format!("fuzzy_match on {} ({}) panicked ({pc}) at {}: {m}", b.def.name, b.def.ty, cx.last_loc), fail_input.clone());
                         cx.rep.count("fuzzy:panic");
                     }
                     Ok(r) => {
@@ -707,13 +850,14 @@ fn score(mw: &[char], w: &[char], dist: u8, md: &WordMetadata) -> i64 {
 fn suggest_case(cx: &mut Cx, b: &Built, query: &Query, q: &[char], ql_string: &[char], r: &[(Vec<char>, u8, WordMetadata)], raw: &str, fail_input: &Value) {
     let who = format!("{} ({})", b.def.name, b.def.ty);
     let head = format!("S {} {} {} | {} | {} | {}", b.gname, query.d, query.k, cps(q), cps(ql_string), raw);
-    let got: Result<Vec<Vec<char>>, String> = guarded(|| suggest_correct_spelling(q, query.k, query.d, &b.dict).into_iter().map(|w| w.to_vec()).collect());
+    let (dict, qc, (qd, qk)) = (b.dict.clone(), q.to_vec(), (query.d, query.k));
+    let Some(got) = cx.on_impl(&format!("suggest_correct_spelling({:?}, {}, {}) on {who}", query.q, query.k, query.d), fail_input, move || suggest_correct_spelling(&qc, qk, qd, &dict).into_iter().map(|w| w.to_vec()).collect::<Vec<Vec<char>>>()) else { return };
     cx.suggest_cases += 1;
     match got {
         Err(m) => {
             let pc = panic_class(&m);
             cx.rep.case(&head, &format!("P {pc}"));
-            cx.rep.fail("suggest_panic", format!("suggest_correct_spelling on {who} panicked ({pc}) at {} although fuzzy_match did not: {m}", last_panic_location()), fail_input.clone());
+            cx.rep.fail("suggest_panic", format!("suggest_correct_spelling on {who} panicked ({pc}) at {} although fuzzy_match did not: {m}", cx.last_loc), fail_input.clone());
         }
         Ok(sug) => {
             cx.rep.case(&head, format!("S {}: {}", sug.len(), sug.iter().map(|w| cps(w)).collect::<Vec<_>>().join(", ")).trim());
@@ -1107,6 +1251,16 @@ pub fn run(a: &Args, corpus: &[Value]) {
         automaton_curated: 0,
         automaton_curated_max: a.scale(8, 60) as u64,
         sort_stable_checked: 0,
+        imp: spawn_impl_thread(),
+        call_budget: std::time::Duration::from_secs(env_u64("C15_CALL_BUDGET_S", a.scale(180, 600) as u64)),
+        cpu_budget_ns: env_u64("C15_CPU_BUDGET_S", a.scale(60, 600) as u64) * 1_000_000_000,
+        impl_cpu_ns: 0,
+        impl_calls: 0,
+        slowest: (0, String::new(), Value::Null),
+        last_loc: String::new(),
+        aborted: false,
+        bounds_first: vec![],
+        bounds_recent: std::collections::VecDeque::new(),
     };
     cx.rep.rule = "scenarios = named dictionaries built through the public API (MutableDictionary::extend_words, FstDictionary::new, FstDictionary::from(Mutable), MergedDictionary incl. nested / duplicated / empty children, the two curated dictionaries) x queries (dictionary words, re-cased, 1-3 random edits, typographic apostrophes, non-ASCII incl. length-changing lower-casing, empty, long up to 300) x max_distance 0..3 (4, thorough also 5, on small dictionaries; 255 for the distance function with strings up to 300 characters) x max_results {0,1,2,3,5,10,100,1000}; every query asks all exact-trait methods (char and _str variants, get_word_from_id) and fuzzy_match/_str on every back-end of the scenario; per scenario word_count / words_iter of merged dictionaries and == between them. non-trivial = distinct (scenario, query) where some back-end contains the word or returns >= 1 fuzzy result".into();
     // the Unicode data of ASCII is declared up front
@@ -1131,6 +1285,8 @@ pub fn run(a: &Args, corpus: &[Value]) {
     }
     for c in corpus {
         let s = scenario_from_json(c);
+        let warm: Vec<u8> = c["warmup_bounds"].as_array().map(|a| a.iter().filter_map(|x| x.as_u64().map(|v| v as u8)).collect()).unwrap_or_default();
+        cx.warm_up(&warm);
         run_scenario(&mut cx, &s);
     }
     if a.replay.is_some() {
@@ -1224,6 +1380,70 @@ pub fn run(a: &Args, corpus: &[Value]) {
         }
         let s = Scenario { dicts, agree, queries, origin: if distinct { "small-alphabet".into() } else { "small-alphabet-id-collisions".into() }, malformed: false };
         run_scenario(&mut cx, &s);
+    }
+
+    // ---- (8) bound histories: FstDictionary::fuzzy_match keeps a per-thread cache of automaton builders keyed by the bound;
+    // every bound 0..4 (thorough: sometimes 0..5) is asked in some order and then again, twice, in the same order, on ONE
+    // thread (the implementation thread) — whatever the cache does with a fifth bound, the bounds asked before must still
+    // be answered with THEIR automaton.  The dictionary holds words at every distance 0..5 from the query; lower-case only
+    // (completeness applies).  The whole sequence is the failing input (`history` in run_scenario). ----
+    for it in 0..a.scale(12, 150) {
+        let alphabet: &[char] = &['a', 'b', 'c', 'd', 'e'];
+        let base: String = (0..r.range(6, 9)).map(|_| *r.pick(alphabet)).collect();
+        let mut entries: Vec<(String, usize)> = vec![(base.clone(), r.below(16))];
+        for n in 1..=5usize {
+            for _ in 0..r.range(1, 2) {
+                let w = edit(&mut r, &base, n, alphabet);
+                if !w.is_empty() && !entries.iter().any(|e| e.0 == w) {
+                    entries.push((w, r.below(16)));
+                }
+            }
+        }
+        let d = |name: &str, ty: &str, entries: &[(String, usize)], children: &[&str]| DictDef { name: name.into(), ty: ty.into(), entries: entries.to_vec(), children: children.iter().map(|s| s.to_string()).collect() };
+        let dicts = vec![d("m", "M", &entries, &[]), d("f", "F", &entries, &[]), d("x", "X", &[], &["f"])];
+        let top: u8 = if a.thorough() && it % 10 == 0 { 5 } else { 4 };
+        let mut perm: Vec<u8> = (0..=top).collect();
+        for i in (1..perm.len()).rev() {
+            let j = r.below(i + 1);
+            perm.swap(i, j);
+        }
+        let mut queries = vec![];
+        for _round in 0..3 {
+            for &dd in &perm {
+                let q = if r.chance(2, 3) { base.clone() } else { edit(&mut r, &base, 1, alphabet) };
+                queries.push(Query { q, d: dd, k: 100, on: vec![], fuzzy: true });
+            }
+        }
+        run_scenario(&mut cx, &Scenario { dicts, agree: vec![vec!["m".into(), "f".into(), "x".into()]], queries, origin: "bound-history".into(), malformed: false });
+    }
+
+    // ---- (9) case variants of one word in DIFFERENT children of a merged dictionary ("Polish" / "polish"): they share a
+    // WordId but are different words — both are results of a fuzzy search, and a lower-case query must find its exact word ----
+    {
+        let plain: Vec<&String> = words.iter().filter(|w| (3..=8).contains(&w.chars().count()) && w.chars().all(|c| c.is_ascii_lowercase())).collect();
+        for _ in 0..a.scale(60, 600) {
+            let n = r.range(1, 4);
+            let bases: Vec<String> = (0..n).map(|_| (*r.pick(&plain)).clone()).collect();
+            let cap = |w: &str| { let mut c = w.chars(); c.next().map(|f| f.to_ascii_uppercase().to_string() + c.as_str()).unwrap_or_default() };
+            let mut ea: Vec<(String, usize)> = vec![];
+            let mut eb: Vec<(String, usize)> = vec![];
+            for w in &bases {
+                let v = if r.chance(2, 3) { cap(w) } else { w.to_ascii_uppercase() };
+                if !ea.iter().any(|e| e.0 == v) { ea.push((v, r.below(16))); }
+                if !eb.iter().any(|e| e.0 == *w) { eb.push((w.clone(), r.below(16))); }
+            }
+            let d = |name: &str, ty: &str, entries: &[(String, usize)], children: &[&str]| DictDef { name: name.into(), ty: ty.into(), entries: entries.to_vec(), children: children.iter().map(|s| s.to_string()).collect() };
+            let tb = if r.chance(1, 2) { "M" } else { "F" };
+            let dicts = vec![d("a", "M", &ea, &[]), d("b", tb, &eb, &[]), d("xab", "X", &[], &["a", "b"]), d("xba", "X", &[], &["b", "a"])];
+            let mut queries = vec![];
+            for w in &bases {
+                for _ in 0..2 {
+                    let q = match r.below(4) { 0 => cap(w), 1 => edit(&mut r, w, 1, &['a', 'e', 's', 't']), _ => w.clone() };
+                    queries.push(Query { q, d: r.below(3) as u8, k: *r.pick(&[1usize, 2, 100]), on: vec![], fuzzy: true });
+                }
+            }
+            run_scenario(&mut cx, &Scenario { dicts, agree: vec![], queries, origin: "merged-case-variants".into(), malformed: false });
+        }
     }
 
     if std::env::var("C15_TIMING").is_ok() { eprintln!("t3 {:?}", t_start.elapsed()); }
@@ -1436,6 +1656,8 @@ fn finish(mut cx: Cx) {
     cx.rep.monitor("fst_stream_contract_direct(streams of our own fst::Map + levenshtein DFA over the dictionary's sorted words compared with brute force)", cx.stream_checked);
     cx.rep.monitor("fst_stream_is_automaton_product(A cases: real fst + levenshtein_automata stream vs extracted la_search, item by item)", cx.automaton_cases);
     cx.rep.monitor("vec_sort_by_key_stable(std, on the score keys of every suggestion case)", cx.sort_stable_checked);
+    cx.rep.extra.insert("implementation_thread".into(), json!({"calls": cx.impl_calls, "cpu_s": cx.impl_cpu_ns as f64 / 1e9, "cpu_budget_s": cx.cpu_budget_ns as f64 / 1e9,
+        "call_watchdog_s": cx.call_budget.as_secs(), "slowest_call_s": cx.slowest.0 as f64 / 1e9, "slowest_call": cx.slowest.1, "aborted": cx.aborted}));
     cx.rep.extra.insert("suggest_cases".into(), json!(cx.suggest_cases));
     cx.rep.extra.insert("automaton_cases".into(), json!(cx.automaton_cases));
     cx.rep.extra.insert("automaton_cases_on_curated_index".into(), json!(cx.automaton_curated));
